@@ -73,6 +73,11 @@ class Effects:
                 if self.m.is_metaclass(fn.cls) or is_cm or fn.name in ("__init_subclass__", "__class_getitem__"):
                     # the receiver is a class object: shared by every thread
                     return ("class", f"<instance of {fn.cls.qualname}>" if self.m.is_metaclass(fn.cls) else fn.cls.qualname)
+                inst = self.module_level_instances(fn.cls)
+                if inst and fn.name not in ("__init__", "__new__", "__init_subclass__"):
+                    # the class has an instance bound at module level: what its methods store on `self` is, for that
+                    # instance, state shared by every thread
+                    return ("modvar", f"{inst[0]} (module-level instance of {fn.cls.name})")
                 return ("self", name)
             return ("param", name)
         if b.kind == "freevar":
@@ -144,6 +149,23 @@ class Effects:
         if b.kind == "func":
             return ("class", b.target.qualname)  # function object attribute (shared)
         return ("unknown", name)
+
+    def module_level_instances(self, c: ClassInfo) -> list:
+        cache = self.__dict__.setdefault("_mli", {})
+        if c.qualname in cache:
+            return cache[c.qualname]
+        out = []
+        for mod in self.m.modules.values():
+            if mod.short.startswith("_typeguard"):
+                continue
+            for name, vals in mod.assigns.items():
+                for v in vals:
+                    if isinstance(v, ast.Call) and isinstance(v.func, (ast.Name, ast.Attribute)):
+                        t = self.m.resolve_expr_static(mod, v.func)
+                        if t is c:
+                            out.append(f"{mod.short}.{name}")
+        cache[c.qualname] = out
+        return out
 
     def contextvar_of(self, fn, call: ast.Call):
         """`X.get()` where X is a module-level `contextvars.ContextVar(...)`: (qualified name, default node|None)."""
